@@ -352,6 +352,67 @@ def comb_capacity(rep, u, curves=None):
     return n
 
 
+def comb_coverage(rep, u):
+    """comb evaluators consume the scalar through bn_combo_column_get(d, bit_off, wnd_bits, wnd_count), which reads the bits
+    bit_off - j*wnd_count (j < wnd_bits).  Traced (partial evaluation, table reads defaulted) for several table geometries
+    whose window width does not divide the curve size: over the whole loop every bit position 0 .. wnd_bits*wnd_count-1
+    is read exactly once - a start offset taken from the curve size instead of the table geometry reads every column one or
+    two bits too low."""
+    from rules import r_stride
+    n = 0
+    W = _digit_bits(u)
+    for fn in u.function_list:
+        if fn.relfile() != EC_H or not fn.has_cfg:
+            continue
+        reads = [c for _, _, c, _ in fn.calls({"bn_combo_column_get"})]
+        if not reads:
+            continue
+        sc = core.strip_casts(reads[0]["args"][0])
+        if sc.get("k") != "ref" or sc.get("dk") != "parm":
+            continue
+        d = sc["n"]
+        n += 1
+        rep.functions.add(fn.name)
+        bad = undec = None
+        geos = 0
+        for m, wb in ((2 * W + 2, 3), (2 * W + 1, 2), (2 * W + 3, 4), (2 * W + 9, 5), (2 * W, 4)):
+            wc = (m + wb - 1) // wb
+            pe = r_stride.PE(u, call_default={nm: 0 for nm in u.functions if nm.startswith(("ec_point", "bn_assign", "bn_mod", "bn_combo"))})
+            bind = {d: 0x5000, d + "->digits": 2, "curve->m": m, "mult_data->wnd_bits": wb, "mult_data->wnd_count": wc,
+                    "mult_data->e_count": (wc + 1) // 2, "bn_is_one(%s)" % d: 0, "bn_is_zero(%s)" % d: 0,
+                    "point": 0x1000, "mult_data": 0x2000, "curve": 0x3000}
+            ev, ret = pe.trace(fn, bind, max_steps=40000)
+            if isinstance(ret, str):
+                undec = undec or "m=%d window=%d: %s" % (m, wb, ret)
+                continue
+            offs = []
+            for e, b in ev:
+                for x, ps in walk(e):
+                    if x.get("k") == "call" and x.get("fn") == "bn_combo_column_get":
+                        try:
+                            offs.append((r_mpt.eval_expr(x["args"][1], {}, pe._hook(b, {})), r_mpt.eval_expr(x["args"][2], {}, pe._hook(b, {})),
+                                         r_mpt.eval_expr(x["args"][3], {}, pe._hook(b, {}))))
+                        except (r_mpt.Unknown, KeyError, TypeError):
+                            undec = undec or "m=%d window=%d: a bit offset is not computable" % (m, wb)
+            geos += 1
+            bits = sorted(o - j * c_ for o, b_, c_ in offs for j in range(b_))
+            want = list(range(wb * wc))
+            if bits != want:
+                missing = [x for x in want if x not in bits]
+                extra = [x for x in bits if x not in want or bits.count(x) > 1]
+                bad = bad or "curve size %d, window %d x %d columns: bit positions %s are never read%s (first offsets %s)" % (
+                    m, wb, wc, missing[:6], (", positions %s are read outside the table / twice" % sorted(set(extra))[:6]) if extra else "",
+                    [o for o, _b, _c in offs[:3]])
+        desc = "%s reads every scalar bit position 0 .. wnd_bits*wnd_count-1 exactly once (table geometry, not curve size, fixes the offsets)" % fn.name
+        if bad:
+            rep.violated("R-SPEC", fn, "comb-coverage", desc, bad)
+        elif undec:
+            rep.undecided("R-SPEC", fn, "comb-coverage", desc, undec)
+        else:
+            rep.proved("R-SPEC", fn, "comb-coverage", desc, "%d geometries" % geos)
+    return n
+
+
 def _digit_bits(u):
     for r in u.records.values():
         for f in r.get("fields", []):
@@ -498,9 +559,12 @@ def run(rep, tier):
     del CURVES[:]
     curve_table(rep, us[aspecs[0].label])
     ncap = 0
+    ncov = 0
     for s_ in aspecs:
         ncap += comb_capacity(rep, us[s_.label], list(CURVES))
+        ncov += comb_coverage(rep, us[s_.label])
     rep.floor("comb multipliers", ncap, 2)
+    rep.floor("comb evaluators (coverage)", ncov, 2)
     return driver.finish(
         rep, "other",
         "Static analysis of math/elliptic_curve.h: %d configurations compiled as witnesses, %d analysed in depth. "
